@@ -635,6 +635,33 @@ Qed.
 
 Local Open Scope R_scope.
 
+(* ---- the finiteness checks of the parsers (fix fa94a59) are no-ops in exact arithmetic ---- *)
+Lemma is_finite_R (x : R) : @is_finite R RNum x = true.
+Proof.
+  unfold is_finite. cbn [neqb nsub n0 RNum]. apply Reqb_true. ring.
+Qed.
+
+Lemma parse_dec_finite_R (s : str) : @parse_dec_finite R RNum s = @parse_dec R RNum s.
+Proof.
+  unfold parse_dec_finite. destruct (@parse_dec R RNum s) as [v|]; [rewrite is_finite_R|]; reflexivity.
+Qed.
+
+Lemma sums_finite_R (ts : list (R * nat)) : @sums_finite R RNum ts = true.
+Proof.
+  unfold sums_finite.
+  generalize (repeat (@n0 R RNum) (S (max_power_of ts))).
+  assert (G : forall (l : list (R * nat)) (cs : list R) (b : bool),
+             snd (fold_left (fun (st : list R * bool) t =>
+                    let cs' := add_at (fst st) (snd t) (fst t) in
+                    (cs', snd st && @is_finite R RNum (nth (snd t) cs' n0))) l (cs, b)) = b).
+  { induction l as [|t l IH]; intros cs b; [reflexivity|].
+    cbn [fold_left fst snd]. rewrite IH, is_finite_R, andb_true_r. reflexivity. }
+  intro cs. apply G.
+Qed.
+
+Lemma all_finite_R (l : list (name * R)) : forallb (fun vp => @is_finite R RNum (snd vp)) l = true.
+Proof. induction l as [|x l IH]; [reflexivity|]. cbn [forallb]. rewrite is_finite_R, IH. reflexivity. Qed.
+
 (* ---- dense_coeffs ---------------------------------------------------------------- *)
 Fixpoint sumat (k : nat) (ts : list (R * nat)) : R :=
   match ts with
@@ -711,7 +738,7 @@ Proof.
   { apply max_power_le; [lia|]. intros t Ht. specialize (H t Ht). lia. }
   destruct (Z.leb_spec (2 ^ 64) (Z.of_nat (max_power_of ts) + 1)) as [L|L]; [exfalso; lia|].
   destruct (Z.ltb_spec (2 ^ 63 - 1) ((Z.of_nat (max_power_of ts) + 1) * 8)) as [L2|L2]; [exfalso; lia|].
-  reflexivity.
+  rewrite sums_finite_R. reflexivity.
 Qed.
 
 (* ---- the round trip, generic in the number formatter ------------------------------ *)
@@ -1012,8 +1039,8 @@ Section SimpleRT.
     | [] => Ok n1
     | [c] => if N.eqb c c_plus then Ok n1
              else if N.eqb c c_minus then Ok (nneg n1)
-             else match parse_dec coeff_str with Some c => Ok c | None => Err EInvalidCoefficient end
-    | _ => match parse_dec coeff_str with Some c => Ok c | None => Err EInvalidCoefficient end
+             else match parse_dec_finite coeff_str with Some c => Ok c | None => Err EInvalidCoefficient end
+    | _ => match parse_dec_finite coeff_str with Some c => Ok c | None => Err EInvalidCoefficient end
     end.
 
   Lemma simple_term_var a rest : ~ In var a ->
@@ -1044,8 +1071,8 @@ Section SimpleRT.
     - unfold coeff_of. cbn [body_ok forallb] in Hb. rewrite andb_true_r in Hb.
       destruct (numch_facts d Hb) as [P _]. unfold plainb in P.
       apply andb_true_iff in P. destruct P as [P P2]. apply andb_true_iff in P. destruct P as [_ P1].
-      apply negb_true_iff in P1, P2. rewrite P1, P2, Hp. reflexivity.
-    - unfold coeff_of. rewrite Hp. reflexivity.
+      apply negb_true_iff in P1, P2. rewrite P1, P2, parse_dec_finite_R, Hp. reflexivity.
+    - unfold coeff_of. rewrite parse_dec_finite_R, Hp. reflexivity.
   Qed.
 
   Lemma parse_dec_neg s v : body_ok s = true -> @parse_dec R RNum s = Some v ->
@@ -1062,7 +1089,7 @@ Section SimpleRT.
   Proof.
     intros Hb Hp. pose proof (parse_dec_neg s v Hb Hp) as Hn.
     destruct s as [|d s]; [discriminate Hp|].
-    unfold coeff_of. rewrite Hn. reflexivity.
+    unfold coeff_of. rewrite parse_dec_finite_R, Hn. reflexivity.
   Qed.
 
   (* the value one printed term reads back as *)
@@ -1101,7 +1128,7 @@ Section SimpleRT.
       assert (Pd : @parse_dec R RNum (sgn_str c ++ fnum (Rabs c))
                    = Some (if Rltb c 0 then - rd (Rabs c) else rd (Rabs c))).
       { unfold sgn_str. destruct (Rltb c 0); cbn [app]; [apply parse_dec_neg; assumption|exact Hp]. }
-      unfold simple_term. rewrite Pd.
+      unfold simple_term. rewrite parse_dec_finite_R, Pd.
       destruct Hv as [->|[-> _]]; [|reflexivity].
       rewrite find_char_none by (apply Hsgn; exact Hb). reflexivity.
     - destruct Hv as [->|[_ X]]; [|discriminate X].
@@ -1234,7 +1261,7 @@ Section SimpleRT.
       change (minus_to_plusminus [c_zero]) with [c_zero].
       change (split_on c_plus [c_zero]) with [[c_zero]].
       cbn [drop_leading_empty existsb bad_part orb find_pred]. rewrite A0.
-      cbn [mapM simple_term bind].
+      cbn [mapM simple_term bind]. rewrite parse_dec_finite_R.
       change (@parse_dec R RNum [c_zero]) with (Some (@nofdec R RNum 0 0)).
       cbn [bind]. rewrite Hd. reflexivity.
     - intro k. cbn [s_coefs]. rewrite dense_coeffs_nth. cbn [sumat snd fst].
@@ -1987,7 +2014,7 @@ Section InterRT.
       + apply Reqb_false in E1. destruct (He E1) as [sg [b [Ef [Hs [Hb Hp]]]]].
         unfold fexp in Ef. rewrite Ef in *. cbn [app] in *. rewrite N.eqb_refl.
         rewrite <- app_assoc. rewrite (scan_pow_signed sg b (fvars vs) Hs Hb (fvars_stops vs H')).
-        unfold inter_pow. rewrite (no_slash sg b Hs Hb), Hp.
+        unfold inter_pow. rewrite (no_slash sg b Hs Hb), parse_dec_finite_R, Hp.
         rewrite (IH fuel (([ch], rde e) :: acc) H').
         * cbn [rev]. rewrite <- app_assoc. reflexivity.
         * cbn [length] in Hf. rewrite !app_length in Hf. lia.
@@ -2015,7 +2042,7 @@ Section InterRT.
       { destruct Hs as [->| ->]; cbn [app str_eqb].
         - destruct (N.eqb_spec x c_minus); [contradiction|reflexivity].
         - rewrite N.eqb_refl. reflexivity. }
-      rewrite E, (no_slash sg (x :: b) Hs Hb), Hv.
+      rewrite E, (no_slash sg (x :: b) Hs Hb), parse_dec_finite_R, Hv.
       destruct Hs as [->| ->]; reflexivity.
   Qed.
 
@@ -2027,7 +2054,8 @@ Section InterRT.
     intros Hs Hb Hv Hvs. unfold inter_term.
     rewrite (scan_coeff_signed sg b (fvars vs) Hs Hb (fvars_stops vs Hvs)).
     rewrite (inter_coeff_spec sg b v Hs Hb Hv).
-    rewrite (scan_vars_spec vs (length (fvars vs)) [] Hvs (le_n _)). reflexivity.
+    rewrite (scan_vars_spec vs (length (fvars vs)) [] Hvs (le_n _)). cbn [rev app].
+    rewrite all_finite_R. reflexivity.
   Qed.
 
   (* ---- sorted, distinct names are left alone by sort_vars / merge_vars ---- *)
